@@ -27,6 +27,7 @@ PROPERTIES = {
             ('C09-R4', cextra.rule_extend_guards, 'quick'),
             ('C01-R6', cextra.rule_inverse_cleanup, 'quick'),
             ('C01-R7', cextra.rule_sequence_shape, 'quick'),
+            ('C03-R3', c03.rule_start_typestate, 'quick'),  # an extglob group that loses START guards changes what the group matches
         ],
     },
     'C02': {
@@ -47,6 +48,7 @@ PROPERTIES = {
             ('C03-R2', c03.rule_guard_tables, 'quick'),
             ('C02-R9', cextra.rule_references_table, 'quick'),
             ('C02-R10', cextra.rule_lookahead_putback, 'quick'),
+            ('C01-R6', cextra.rule_inverse_cleanup, 'quick'),  # !(..) must stop at the separator in path mode
         ],
     },
     'C03': {
@@ -173,6 +175,8 @@ PROPERTIES = {
             ('C04-R10', cextra.rule_dirfd_siblings, 'quick'),
             ('C12-R6', cextra.rule_same_name_forwarding, 'quick'),
             ('C07-R7', cextra.rule_match_siblings, 'quick'),
+            ('C02-R6', c02.rule_matchbase, 'quick'),
+            ('C13-R3', cglob.rule_dedupe_predicate, 'quick'),
         ],
     },
     'C05': {
@@ -191,6 +195,7 @@ PROPERTIES = {
             ('C02-R6', c02.rule_matchbase, 'quick'),
             ('C05-R6', cextra.rule_loop_fresh_lists, 'quick'),
             ('C09-R4', cextra.rule_extend_guards, 'quick'),
+            ('C12-R5', cglob.rule_abs_pattern_def, 'quick'),
         ],
     },
     'C06': {
@@ -240,6 +245,8 @@ PROPERTIES = {
             ('C13-R3', cglob.rule_dedupe_predicate, 'quick'),
             ('C03-R4', c03.rule_exclusion_dotmatch, 'quick'),
             ('C04-R6', cglob.rule_exclusion_slash, 'quick'),
+            ('C12-R5', cglob.rule_abs_pattern_def, 'quick'),
+            ('C16-R5', cextra.rule_pathlib_norm, 'quick'),
         ],
     },
     'C16': {
@@ -259,6 +266,7 @@ PROPERTIES = {
             ('C16-R5', cextra.rule_pathlib_norm, 'quick'),
             ('C17-R7', cextra.rule_flag_mask_agreement, 'quick'),
             ('C12-R6', cextra.rule_same_name_forwarding, 'quick'),
+            ('C02-R3', c02.rule_separator_pairing, 'quick'),
         ],
     },
     'C17': {
@@ -281,6 +289,10 @@ PROPERTIES = {
             ('C17-R6', cextra.rule_case_fold_consistency, 'quick'),
             ('C02-R9', cextra.rule_references_table, 'quick'),
             ('C17-R8', cextra.rule_sequence_separator, 'quick'),
+            ('C02-R2', c02.rule_separator_consumers, 'quick'),
+            ('C02-R3', c02.rule_separator_pairing, 'quick'),
+            ('C07-R1', clists.rule_routing, 'quick'),
+            ('C08-R4', clists.rule_translate_compile_siblings, 'quick'),
         ],
     },
     'C07': {
@@ -302,6 +314,7 @@ PROPERTIES = {
             ('C09-R4', cextra.rule_extend_guards, 'quick'),
             ('C07-R7', cextra.rule_match_siblings, 'quick'),
             ('C12-R6', cextra.rule_same_name_forwarding, 'quick'),
+            ('C02-R7', c02.rule_nodir, 'quick'),  # the NODIR exclusion must see the NEGATEALL default
         ],
     },
     'C08': {
@@ -354,6 +367,7 @@ PROPERTIES = {
             ('C02-R5', c02.rule_globstar_predicate, 'quick'),
             ('C17-R5', cflags.rule_sep_parametric, 'quick'),
             ('C02-R10', cextra.rule_lookahead_putback, 'quick'),
+            ('C02-R7', c02.rule_nodir, 'quick'),  # the tail of translate / compile_pattern indexes positive[0]
         ],
     },
 }
